@@ -1,12 +1,12 @@
 #!/bin/bash
 # seed_keep.sh <Cxx> : confirm both seeds of /tmp/wt-Cxx and keep the confirmed ones under /verif/seeded/
-id="$1"; wt=/tmp/wt-$id
+id="$1"; wt=${WT_PREFIX:-/tmp/wt}-$id
 for s in A B; do
   [ -d $wt/_seeds/$s ] || continue
   out=$(/verif/tools/seed_confirm.sh $wt $s 2>&1)
   echo "$out" | tail -4
   if echo "$out" | grep -q '^CONFIRMED'; then
-    d=/verif/seeded/$id-$s; mkdir -p $d
+    d=/verif/seeded/$id-$s${ROUND_TAG:-}; mkdir -p $d
     cp $wt/_seeds/$s/patch.diff $wt/_seeds/$s/demo_test.go $d/
     python3 - "$wt/_seeds/$s/meta.json" "$d/meta.json" "$id" <<'PY'
 import json,sys
